@@ -61,6 +61,22 @@ class K6(Schema):
     d: int = Field(ge=0, default=5)
 
 
+class P0(Schema):
+    a: int = Field(alias='A1', ge=0)
+    h: int = Field(no_output=True, default=2, ge=0)
+    b: int = Field(ge=0, default=1)
+
+    @property
+    @Field(dependencies=['a', 'b'])
+    def s(self) -> int:
+        return self.a + self.b
+
+
+class K7(P0):
+    b: int = Field(ge=0, default=3)         # re-declares a dependency of the inherited property
+    key: int = Field(ge=0, no_output=True)   # required, lives in the attribute view only
+
+
 class K4(DataClass):
     r: int = Field(ge=0)
     o: int = Field(ge=0, required=False)
@@ -77,6 +93,8 @@ SPEC = {
            ['r', 'o', 'p', 'zz', 'yy']),
     'K6': (K6, {'r': ('r', True, False, False), 'o': ('o', False, False, False), 'd': ('d', False, False, False)},
            ['r', 'o', 'd', 'zz']),
+    'K7': (K7, {'a': ('A1', True, False, False), 'h': ('h', False, False, True), 'b': ('b', False, False, False),
+                'key': ('key', True, False, True)}, ['a', 'A1', 'h', 'b', 's', 'key', 'zz']),
     'K3': (K3, {'inner': ('inner', True, False, False), 'n': ('n', False, False, False), 'opt': ('opt', False, False, False)},
            ['inner', 'n', 'opt', 'zz']),
 }
@@ -113,7 +131,9 @@ def build(V, name, tag=''):
             absent.append('d')
         kw['im'] = V.int(tag + 's_im', 0, 3)
         kw['fin'] = V.int(tag + 's_fin', 0, 3)
-    elif name == 'K2':
+    elif name in ('K2', 'K7'):
+        if name == 'K7':
+            kw['key'] = V.int(tag + 's_key', 0, 3)
         kw['a'] = V.int(tag + 's_a', 0, None)
         kw['h'] = V.int(tag + 's_h', 0, 3)
         if V.bool(tag + 's_has_b'):
@@ -160,6 +180,8 @@ def set_attr(obj, key, v):
         obj.im = v
     elif key == 'fin':
         obj.fin = v
+    elif key == 'key':
+        obj.key = v
     elif key == 'a':
         obj.a = v
     elif key == 'b':
@@ -247,6 +269,8 @@ def valid(V, name, inst, sig_prefix, det, immutables, dep_changed=False):
         present = okey in data
         if no_output:
             V.check(not present, sig_prefix + ':no_output-in-mapping', det)
+            if required:
+                V.check(att in attrs, sig_prefix + ':required-missing:' + att, det)
             if att in attrs:
                 V.check(field_ok(name, att, attrs[att]), sig_prefix + ':unparsed-attribute:' + att, det)
             continue
@@ -267,15 +291,15 @@ def valid(V, name, inst, sig_prefix, det, immutables, dep_changed=False):
                     sig_prefix + ':views-disagree:' + att, lambda: det() + ' ; attribute %s -> %r' % (att, got))
         if immutable and att in immutables:
             V.check(present and data[okey] == immutables[att], sig_prefix + ':immutable-changed:' + att, det)
-    extra = set(data) - {f[0] for f in fields.values()} - ({'s'} if name == 'K2' else set())
+    extra = set(data) - {f[0] for f in fields.values()} - ({'s'} if name in ('K2', 'K7') else set())
     if name == 'K5':
         # addition=int: unknown keys are kept, converted
         V.check(all(isinstance(data[k], int) and not isinstance(data[k], bool) for k in extra), sig_prefix + ':unparsed-addition', det)
         extra = set()
-    if name == 'K2' and 's' in data:
+    if name in ('K2', 'K7') and 's' in data:
         V.check(ok_int(data['s']), sig_prefix + ':nonconforming:s', det)
     V.check(not extra, sig_prefix + ':unknown-key-stored', det)
-    if name == 'K2':
+    if name in ('K2', 'K7'):
         # an assignment to a dependency re-computes the dependent property (deleting a dependency leaves the dependant as
         # it was: pinned by the repository's own test "slug is not affected"); so whenever both dependencies and the
         # property are present they agree, and right after an assignment the property is present
@@ -287,7 +311,7 @@ ASSIGN_OPS = ('setitem', 'setattr', 'update-dict', 'update-kw', 'setdefault', 'i
 
 
 def _dep_changed(name, raised, op, key, before):
-    if name != 'K2' or raised or op not in ASSIGN_OPS or key not in (('a', 'b') if op == 'setattr' else ('a', 'A1', 'b')):
+    if name not in ('K2', 'K7') or raised or op not in ASSIGN_OPS or key not in (('a', 'b') if op == 'setattr' else ('a', 'A1', 'b')):
         return False
     if op == 'setdefault' and ({'a': 'A1'}.get(key, key)) in before[0]:
         return False          # key already present: setdefault assigns nothing
